@@ -234,8 +234,34 @@ def _drop_empty_splat(e):
                    lambda x: x.func(*[a_ for a_ in x.args if not (fnm(a_) == "kwsplat" and a_.args[0] == sp.Function("dict")())]))
 
 
+def _distinct_arrays(ck: Checker, prog: Program):
+    """The per-window arrays of a result (two accept masks, peak frequencies, peak amplitudes) are four different arrays: a write
+    to one of them (e.g. "accept every window when no curve has a peak") must not show through another (effect engine: the
+    constructor's allocation sites)."""
+    from .common import engine
+    cls = prog.cls("HvsrTraditional")
+    init = cls.find_method("__init__")
+    if init is None:
+        raise AnalysisError("HvsrTraditional.__init__ not found")
+    s = engine(prog).summary(init)
+    names = ("valid_window_boolean_mask", "valid_peak_boolean_mask", "_main_peak_frq", "_main_peak_amp")
+    got = {}
+    for nm in names:
+        hv = s.heap.get((("P", 0, ()), nm))
+        if hv is None:
+            raise AnalysisError(f"{init.qualname}: `self.{nm}` is not stored by the constructor")
+        got[nm] = set(hv[0].origins)
+    bad = [(a, b) for i, a in enumerate(names) for b in names[i + 1:] if got[a] & got[b]]
+    if not bad:
+        ck.ok("C08.R2", init.qualname, "accept masks and peak vectors are four separate arrays", detail=", ".join(f"{k}: {len(v)} site(s)" for k, v in got.items()))
+    for a, b in bad:
+        ck.violation("C08.R2", init.qualname, f"self.{a} / self.{b}", f"`self.{a}` and `self.{b}` are one and the same array: updating one of them (window accepted although "
+                     f"it has no peak; peak recorded) silently changes the other", loc=init.loc())
+
+
 def _r2(ck: Checker, prog: Program):
     from ..pathtable import PathTable
+    ck.guard(_distinct_arrays, ck, prog)
     tcls = prog.cls("HvsrTraditional")
     m = tcls.methods["update_peaks_bounded"]
     fq = m.qualname
